@@ -149,6 +149,7 @@ pub fn toverlap_pool() -> Vec<TermSpec> {
         TermSpec::regex("Rbc", "b+c?", &["b", "bc", "bbc"]),
         // top-level alternation: must be anchored as a whole (`^(?:ab|b)`, not `^ab|b`)
         TermSpec::regex("Ralt", "ab|c", &["ab", "c"]),
+        TermSpec::regex("Ralt2", "ba|c|aab", &["ba", "c", "aab"]),
     ]
 }
 
@@ -1453,6 +1454,20 @@ pub fn build_rec(tape: &[u16]) -> GrammarSpec {
             o1.rep = Some((RepOp::Opt, None));
             let o2 = o1.clone();
             let mut alts = vec![mk(vec![o1, tsym(T_ID), o2])];
+            // two trailing optionals; a priority above the default makes the right-nulled
+            // reduction win against the EMPTY reductions of the optionals under GLR
+            {
+                let mut p1 = SymUse::plain(Sym::T(T_NUM));
+                p1.rep = Some((RepOp::Opt, None));
+                let mut p2 = SymUse::plain(Sym::T(T_ID));
+                p2.rep = Some((RepOp::Opt, None));
+                let mut a = mk(vec![tinline(T_KW0 + 2, false), tsym(T_NUM), p2, tinline(T_COLON, false), p1]);
+                if c.pick(2) == 0 {
+                    a.syms.remove(3);
+                }
+                a.meta.prio = Some(15);
+                alts.push(a);
+            }
             if c.pick(2) == 0 {
                 let mut o3 = SymUse::plain(Sym::T(T_ID));
                 o3.rep = Some((RepOp::Opt, None));
